@@ -3,7 +3,7 @@ import PanqecVerif.Model.Lattices.Color3DCode
 open Panqec
 
 /-! `lat Color3DCode <Lx> <Ly> <Lz> qubits|stabs|stab <coord>|logx|logz|axis <coord>|
-    type <coord>|deform <name> <coord>|hmat|lxmat|lzmat|bundle|n|k` -/
+    type <coord>|deform <name> <coord>|hmat|lxmat|lzmat|bundle|n|k|rankfamilyz` -/
 namespace Drv
 
 def color3DCodeModel (Lx Ly Lz : Nat) : ColorModel where
@@ -16,7 +16,12 @@ def color3DCodeModel (Lx Ly Lz : Nat) : ColorModel where
 def handleLatColor3DCode : List String → Option String
   | "lat" :: "Color3DCode" :: lx :: ly :: lz :: rest =>
     match lx.toNat?, ly.toNat?, lz.toNat? with
-    | some Lx, some Ly, some Lz => colorAnswer (color3DCodeModel Lx Ly Lz) rest
+    | some Lx, some Ly, some Lz =>
+      match rest with
+      | ["rankfamilyz"] =>
+        let cs := Color3DCode.selCells Lx Ly Lz
+        some (if cs.isEmpty then "_" else ";".intercalate (cs.map showCoord))
+      | _ => colorAnswer (color3DCodeModel Lx Ly Lz) rest
     | _, _, _ => none
   | _ => none
 
